@@ -32,6 +32,7 @@ THEOREMS = [
     "Ffcx.Naming.join_inj",
     "Ffcx.Naming.concat_fixed_inj",
     "Ffcx.Naming.tag_inj",
+    "Ffcx.Naming.reprFlt_inj",
     "Ffcx.Naming.options_sorted_inj",
     "Ffcx.Naming.options_order_indep",
     "Ffcx.Naming.encode_objs_tag_inj",
@@ -337,14 +338,14 @@ def worker(spec_json):
         f, c = ufl.Coefficient(V), ufl.Constant(m)
         (c * f * ufl.TestFunction(V) * ufl.dx).signature()
     byname = {e.name: e for e in corpus.fixed() + corpus.expressions()}
-    names = list(spec["entries"])
+    names = [n for n in spec["entries"] if n in byname]
     if spec.get("order") == "rev":
         names = names[::-1]
     out = {}
     with X.hermetic_options():
         if spec.get("other_first"):
             # compile-name another request first (other options), then the real ones
-            X.jit_names(byname["mass_tri_p1"].build(), "form", {"scalar_type": "float32"})
+            X.jit_names(byname[names[0]].build(), byname[names[0]].kind, {"scalar_type": "float32"})
         for n in names:
             e = byname[n]
             objs = e.build()
@@ -377,8 +378,13 @@ def _run_worker(spec, hashseed):
 
 
 def stability(chk, thorough):
-    entries = WORKER_ENTRIES_FORMS + WORKER_ENTRIES_EXPRS
-    base = {"entries": entries, "deep": ["subdomains", "expr_rank1"], "options": {"scalar_type": "float64"}, "args": ["-O2"]}
+    from .. import corpus as _corpus
+
+    have = {e.name for e in _corpus.fixed() + _corpus.expressions()}
+    entries = [n for n in WORKER_ENTRIES_FORMS + WORKER_ENTRIES_EXPRS if n in have]
+    if len(entries) < 4:
+        raise RuntimeError("corpus entries used by the C13 stability search disappeared")
+    base = {"entries": entries, "deep": [n for n in ("subdomains", "expr_rank1") if n in entries], "options": {"scalar_type": "float64"}, "args": ["-O2"]}
     variants = [
         ("baseline", dict(base), 0),
         ("hashseed", dict(base), 1),
@@ -535,10 +541,15 @@ def distinct_names(chk, thorough):
     byname = {e.name: e for e in corpus.fixed() + corpus.expressions()}
     modules = []
     for n in ["subdomains", "multi_rule", "prism", "stokes_mixed", "int_facet_tri"] + (["geometry_tet", "p2geom_tri", "ext_facet_quad"] if thorough else []):
-        modules.append((n, byname[n].build, None))
-    modules.append(("two-forms", lambda: byname["laplace_coef_tri_p2"].build() + byname["rhs_tri_p2"].build() + byname["mass_tri_p1"].build(), None))
-    modules.append(("same-form-twice", lambda: byname["mass_tri_p1"].build() * 2, None))
-    modules.append(("expressions-3", lambda: byname["expr_grad_tri"].build() + byname["expr_rank1"].build() + byname["expr_facet"].build(), None))
+        if n in byname:
+            modules.append((n, byname[n].build, None))
+
+    def cat(*ns):
+        return lambda: [o for n in ns if n in byname for o in byname[n].build()]
+
+    modules.append(("three-forms", cat("laplace_coef_tri_p2", "rhs_tri_p2", "mass_tri_p1"), None))
+    modules.append(("same-form-twice", lambda: cat("mass_tri_p1")() * 2, None))
+    modules.append(("expressions-3", cat("expr_grad_tri", "expr_rank1", "expr_facet"), None))
 
     def two_domains():
         m1, V1 = _tri()
@@ -574,8 +585,18 @@ def distinct_names(chk, thorough):
                 "names:two-domains-same-integral-name": "a form with two integration domains (same type and subdomain id) defines the same integral name twice (integral_name ignores the domain)",
                 "names:duplicate-expression": "the same (expression, points) listed twice in one module gets one name twice (expression_name has no index in its tag)",
             }.get(key, "duplicate top-level names in one generated module")
+            replay = {
+                "names:two-domains-same-integral-name":
+                    "m1,m2 = two P1 triangle meshes; V_i = FunctionSpace(m_i, P1); f_i = Coefficient(V_i); "
+                    "ffcx.compiler.compile_ufl_objects([f1*dx(m1) + f2*dx(m2)], options=get_options({}), namespace='ns') "
+                    "-> the C source defines integral_<sha1>_triangle twice",
+                "names:duplicate-expression":
+                    "f = Coefficient(P1 triangle); pts = np.array([[0.25, 0.25]]); "
+                    "ffcx.compiler.compile_ufl_objects([(grad(f), pts), (grad(f), pts.copy())], ...) (or jit.compile_expressions) "
+                    "-> the C source defines expression_<sha1> twice",
+            }.get(key, f"harness.props.c13.distinct_names: module '{label}'")
             chk.violation(key=key, what=what, payload={"module": label, "duplicates": [re.sub(r"[0-9a-f]{40}", lambda m: m.group(0)[:8] + "…", x) for x in dup],
-                                                        "replay": f"harness.props.c13.distinct_names: module '{label}'"})
+                                                        "replay": replay})
 
 
 # ------------------------------------------------------------------------------ run
@@ -606,7 +627,7 @@ def run(chk):
             corr_nprepr(chk, d, rng, 4000 if thorough else 500)
             names = list(fixed) if thorough else ["mass_tri_p1", "laplace_coef_tri_p2", "stokes_mixed", "subdomains", "prism",
                                                     "int_facet_tri", "expr_grad_tri", "expr_grad_tet", "expr_rank1", "expr_tensor", "expr_facet"]
-            corr_encode(chk, d, rng, [fixed[n] for n in names], 6 if thorough else 4)
+            corr_encode(chk, d, rng, [fixed[n] for n in names if n in fixed], 6 if thorough else 4)
             # expressions at random points (exercise npRepr inside encode)
             import ufl
 
@@ -629,7 +650,7 @@ def run(chk):
                     pts = np.resize(pts, (max(1, pts.size // 2), 2))
                 rnd.append(_E(i, pts))
             corr_encode(chk, d, rng, rnd, 1)
-            tag_entries = list(fixed.values()) if thorough else [fixed[n] for n in ("subdomains", "multi_rule", "prism", "stokes_mixed", "int_facet_tri", "vertex_tri")]
+            tag_entries = list(fixed.values()) if thorough else [fixed[n] for n in ("subdomains", "multi_rule", "prism", "stokes_mixed", "int_facet_tri", "vertex_tri") if n in fixed]
             corr_integral_tags(chk, d, [e for e in tag_entries if e.kind == "form"])
         separation(chk, thorough)
         distinct_names(chk, thorough)
